@@ -63,7 +63,7 @@ def grad(model_out, *derivative_variable):
     for vari in derivative_variable:
         new_grad = torch.autograd.grad(model_out.sum(), vari, create_graph=True)[0]
         grad.append(new_grad)
-    return torch.column_stack(grad)
+    return torch.cat(grad, dim=-1)
 
 
 """
